@@ -37,6 +37,7 @@ class Extract:
         self.external_body = False  # emit signature+contract only (callee represented by contract)
         self.drop_fields = []
         self.derives = []
+        self.optional_loops = set()
         self.anchor = None
         self.params = None
         self.no_release_variant = False
@@ -86,6 +87,10 @@ def parse(template_text):
                     cur = None
                     if d.startswith('contract:'):
                         cur = 'contract'
+                    elif d.startswith('loop? '):
+                        n = int(d[6:].rstrip(':').strip())
+                        ex.optional_loops.add(n)
+                        cur = ('loop', n)
                     elif d.startswith('loop '):
                         cur = ('loop', int(d[5:].rstrip(':').strip()))
                     elif d.startswith('rule'):
@@ -295,8 +300,8 @@ def expand_extract(ex, canary=False):
     lps = rsrc.loops(text)
     for ordinal in sorted(ex.loops, reverse=True):
         if ordinal >= len(lps):
-            if ex.id.endswith('@release'):
-                continue   # the loop was debug-only
+            if ex.id.endswith('@release') or ordinal in ex.optional_loops:
+                continue   # the loop was debug-only / is optional for this contract (`loop? N`)
             raise AnchorLost('%s: loop #%d not found (%d loops in extracted body)' % (ex.id, ordinal, len(lps)))
         kw, bo = lps[ordinal]
         text = text[:bo] + '\n' + ex.loops[ordinal].rstrip('\n') + '\n' + text[bo:]
